@@ -12,7 +12,7 @@
    ds_bad = 0: the server saw no protocol violation (every segment in sequence with the expected number,
    c bit only on the last one, 8-byte frames). *)
 From Coq Require Import ZArith List Bool.
-From CV Require Import Base.Val Base.Bytes Model.Crc Model.RefBlockServer Model.BlockDl Proofs.Crc_proofs Proofs.Block_proofs.
+From CV Require Import Base.Val Base.Bytes Model.Crc Model.RefBlockServer Model.BlockDl Proofs.Crc_proofs Proofs.Block_proofs Gen.SdoTables Gen.SrcC12 Proofs.Src_eq_c12.
 Import ListNotations.
 Open Scope Z_scope.
 
@@ -59,6 +59,63 @@ Proof. exact normal_return_means_committed. Qed.
 Theorem C12_crc_chunkwise : forall c chunks, fold_left crc_from chunks c = crc_from c (concat chunks).
 Proof. exact crc_from_concat. Qed.
 
+(* ---- Tie (c): source text -> model.  Gen/SrcC12.v is regenerated from the text of canopen/sdo/client.py on every run
+   (tools/tables/src_c12.py, state skeletons: attributes read = parameters, attributes written and ghost flags = result
+   tuple).  The equations say that the model functions the theorems above speak about are determined by the translated
+   functions: branch taken, byte 0 on the bus (sequence number, c bit 0x80, end request with the unused-byte count and
+   CRC field), when the CRC is fed, when the acknowledge is awaited, retransmit decision, new _blksize / _seqno. ---- *)
+Theorem C12_src_write : forall (S : Type) (srv : S -> frame -> S * list frame)
+    (rec_write : dl -> @net S -> list Z -> @R S (option Z)) c w b,
+  write_body srv rec_write c w b =
+  let data := firstn 7 b in
+  let act := src_dl_write (d_done c) (zsome (d_size c)) (zget (d_size c)) (d_pos c) (zlen data) 0 in
+  if act =? 0 then (Err E_RUNTIME, c, w)
+  else if act =? 1 then lift_send (zlen data) (send srv rec_write c w data true)
+  else if act =? 2 then (Ok None, c, w)
+  else lift_send (zlen data) (send srv rec_write c w data false).
+Proof. exact @src_dl_write_eq. Qed.
+
+Theorem C12_src_send : forall (S : Type) (srv : S -> frame -> S * list frame)
+    (rec_write : dl -> @net S -> list Z -> @R S (option Z)) c w b e,
+  send srv rec_write c w b e =
+  let '(byte0, seqno, done, blksize, last, pos, crcp, ack) :=
+    src_dl_send e (d_seqno c) (d_blksize c) (zlen b) (d_last c) (d_pos c) (d_done c) (d_crcsup c) (d_retx c) 0 false false in
+  let w1 := send_request srv w (pad8 (byte0 :: b)) in
+  let c1 := mkdl (d_size c) pos done seqno (if crcp then crc_from (d_crc c) b else d_crc c) last (d_cur c ++ [b])
+                 (d_retx c) blksize (d_crcsup c) (d_closed c) in
+  if ack then block_ack srv rec_write c1 w1 else (Ok tt, c1, w1).
+Proof. exact @src_dl_send_eq. Qed.
+
+Theorem C12_src_block_ack : forall (S : Type) (srv : S -> frame -> S * list frame)
+    (rec_write : dl -> @net S -> list Z -> @R S (option Z)) c w,
+  block_ack srv rec_write c w =
+  match read_response w with
+  | (Err k, w1) => (Err k, c, w1)
+  | (Abort a, w1) => (Abort a, c, w1)
+  | (Ok r, w1) =>
+      let '(code, abort, blksize, seqno, cleared) :=
+        src_dl_block_ack (fb r 0) (fb r 1) (fb r 2) (d_blksize c) (d_seqno c) 0 0 false in
+      if code =? 0 then (Err E_SDOCOMM, c, client_abort srv w1 abort)
+      else if code =? 2 then retransmit rec_write c w1 (fb r 1) (fb r 2)
+      else (Ok tt, mkdl (d_size c) (d_pos c) (d_done c) seqno (d_crc c) (d_last c) (if cleared then [] else d_cur c)
+                        (d_retx c) blksize (d_crcsup c) (d_closed c), w1)
+  end.
+Proof. exact @src_dl_block_ack_eq. Qed.
+
+Theorem C12_src_close : forall (S : Type) (srv : S -> frame -> S * list frame) c (w : @net S),
+  dl_close srv c w =
+  let sk rc := src_dl_close (d_closed c) (d_done c) (d_last c) (d_crcsup c) (d_crc c) rc 0 0 false 0 in
+  let '(code0, byte0, crch, crcf) := sk 1 in
+  if code0 =? 0 then (Ok tt, w)
+  else
+    match request_response srv w (byte0 :: (if crch then [crcf mod 256; crcf / 256] else [0; 0]) ++ [0; 0; 0; 0; 0]) with
+    | (Err k, w1) => (Err k, w1)
+    | (Abort a, w1) => (Abort a, w1)
+    | (Ok r, w1) => let '(code, _, _, _) := sk (fb r 0) in
+                    if code =? 1 then (Ok tt, w1) else (Err E_SDOCOMM, w1)
+    end.
+Proof. exact @src_dl_close_eq. Qed.
+
 (* ---- non-vacuity ---- *)
 Example C12_nv_exact :
   let P := gen_bytes 20 1 in
@@ -82,3 +139,7 @@ Print Assumptions C12_block_download_exact.
 Print Assumptions C12_single_loss_repaired.
 Print Assumptions C12_normal_return_means_committed.
 Print Assumptions C12_crc_chunkwise.
+Print Assumptions C12_src_write.
+Print Assumptions C12_src_send.
+Print Assumptions C12_src_block_ack.
+Print Assumptions C12_src_close.
